@@ -160,7 +160,8 @@ def check_text(text, strict, doc, files, labels):
 
                 same(R.observe(via_load), e, f"load(open file named {fname!r})", ttext, strict)
                 same(R.observe(lambda: simfile.open(p, strict=strict)), e, f"simfile.open({fname!r})", ttext, strict)
-                evals += 2
+                same(R.observe(lambda: simfile.open(p, strict=strict, encoding="utf-8")), e, f"simfile.open({fname!r}, encoding='utf-8')", ttext, strict)
+                evals += 3
                 for cls, cfmt in ((SMSimfile, "sm"), (SSCSimfile, "ssc")):
                     ec = R.ref_load(ttext, strict, cfmt)
 
